@@ -222,6 +222,14 @@ def gen_blocks(rng, strings=None, n_logs=None, entries=()):
             blocks.append((wire.TAG_LOG_STRINGS, ('strings', None)))
         else:
             tag = bytes([rng.randrange(0x20, 0x7f), 0x80, 0, 0, 0, 0, 0, 0])
+            if rng.random() < 0.5:
+                # a NEAR MISS of a known section: its tag word under another sub tag, its sub tag under another tag word,
+                # one byte off - a section is what its whole 8-byte tag says
+                known = rng.choice(sorted(wire.KNOWN_BLOCK_TAGS))
+                tag = rng.choice((known[:4] + bytes([(known[4] + rng.choice((1, 2, 255))) % 256]) + known[5:],
+                                  known[:4] + bytes([known[4], 0, 0, rng.choice((1, 0x80))]),
+                                  bytes([known[0], known[1], 0, rng.choice((1, 0x80))]) + known[4:],
+                                  bytes([known[0], known[1] ^ 0x01]) + known[2:]))
             if tag in wire.KNOWN_BLOCK_TAGS:
                 tag = bytes([0x7f, 0x80, 0, 0, 0, 0, 0, 0])
             blocks.append((tag, val))
